@@ -317,3 +317,30 @@ def read_ndjson(path):
             if line:
                 out.append(json.loads(line))
     return out
+
+
+def run_sharded(lab, sub, scenarios, shards=None, extra_args=None, timeout=1500, env=None):
+    """Split scenarios (dicts with 'id') over several lab processes: lab <sub> -in X -out Y [extra]."""
+    import threading
+    shards = max(1, min(shards or NCPU, len(scenarios) or 1))
+    results, errs = [], []
+
+    def work(k):
+        part = scenarios[k::shards]
+        inp = os.path.join(scratch(), "%s-in-%d.ndjson" % (sub, k))
+        outp = os.path.join(scratch(), "%s-out-%d.ndjson" % (sub, k))
+        write_ndjson(inp, part)
+        args = [sub, "-in", inp, "-out", outp] + [a.replace("{shard}", str(k)) for a in (extra_args or [])]
+        rc, so, se = run_lab(lab, args, timeout=timeout, env=env)
+        rows = read_ndjson(outp) if os.path.exists(outp) else []
+        if rc != 0:
+            errs.append("lab %s shard %d rc=%d: %s" % (sub, k, rc, se[-1500:]))
+        results.extend(rows)
+
+    ts = [threading.Thread(target=work, args=(k,)) for k in range(shards)]
+    [t.start() for t in ts]
+    [t.join() for t in ts]
+    if errs:
+        raise Infra("; ".join(errs[:3]))
+    results.sort(key=lambda r: r.get("id", 0))
+    return results
